@@ -181,7 +181,11 @@ def check_label(case, ctx):
     if case.get('finder'):
         from photutils.segmentation import SourceFinder
         ctx.event('sourcefinder')
-        sf = SourceFinder(npixels, connectivity=conn, deblend=False,
+        # npixels as a (detection, deblending) pair: only the first element
+        # applies to the labelling
+        np_arg = npixels if not case.get('npixels_pair') else \
+            (npixels, case['npixels_pair'])
+        sf = SourceFinder(np_arg, connectivity=conn, deblend=False,
                           progress_bar=False)
         s2 = sf(d_in, t_in, mask=mask)
         require(s2 is not None and np.array_equal(s2.data, ref),
@@ -198,7 +202,8 @@ def label_cases(draw):
         'conn': draw(st.sampled_from([4, 8])),
         'rep': draw(st.sampled_from(['float', 'float', 'int', 'quantity',
                                      'float32'])),
-        'finder': draw(st.integers(0, 5)) == 0}
+        'finder': draw(st.integers(0, 5)) == 0,
+        'npixels_pair': draw(st.sampled_from([None, 1, 3, 50]))}
     if draw(st.integers(0, 3)) == 0:
         t2, _ = draw(palette_image(shape, palette=pal, nonfinite=False))
         case['thr2d'] = t2
@@ -283,7 +288,11 @@ def check_threshold(case, ctx):
     mask = np.array(case['mask'], dtype=bool) if case['mask'] is not None else None
     b_in = np.array(bkg, dtype=float) if isinstance(bkg, list) else bkg
     e_in = np.array(err, dtype=float) if isinstance(err, list) else err
-    sc = SigmaClip(sigma=case['clip_sigma'], maxiters=case['clip_iters'])
+    # every attribute of the user's SigmaClip must be honoured (asymmetric
+    # limits, other centre / spread functions)
+    sckw = dict(sigma=case['clip_sigma'], maxiters=case['clip_iters'])
+    sckw.update(case.get('clip_extra') or {})
+    sc = SigmaClip(**sckw)
     unit = u.Jy if case['quantity'] else None
     kw = {}
 
@@ -303,8 +312,7 @@ def check_threshold(case, ctx):
         sel = data[~mask] if mask is not None else data.ravel()
         with warnings.catch_warnings():
             warnings.simplefilter('ignore')
-            clipped = SigmaClip(sigma=case['clip_sigma'],
-                                maxiters=case['clip_iters'])(
+            clipped = SigmaClip(**sckw)(
                 sel, masked=False, return_bounds=False, copy=True)
             if bkg is None:
                 b_ref = np.nanmean(clipped)
@@ -339,6 +347,11 @@ def threshold_cases(draw):
             'mask': draw(st.one_of(st.none(), bool_mask(shape))),
             'clip_sigma': draw(st.sampled_from([3.0, 2.0, 1.5])),
             'clip_iters': draw(st.sampled_from([10, 1, 3])),
+            'clip_extra': draw(st.sampled_from([None, None,
+                                                {'sigma_lower': 1.0, 'sigma_upper': 4.0},
+                                                {'sigma_lower': 5.0, 'sigma_upper': 1.5},
+                                                {'cenfunc': 'mean'},
+                                                {'stdfunc': 'mad_std'}])),
             'quantity': draw(st.booleans())}
     return case
 
